@@ -70,13 +70,15 @@ CHECKS = {
              "no non-transferable total is negative; loop invariants of every ballot sweep (what is credited is exactly the value "
              "leaving the excluded candidate's pile / at most value x surplus / tally for a surplus). Step contracts: transfer() of "
              "wigm, wigm-prf, cfer, scotland, Ballot.advance, Ballot.vote. Meek / Warren: distributeVotes() leaves tallies + residual "
-             "== ballots exactly (strict rankings). Batch exclusions (sure losers, 10059(k)) are covered through the sum of the piles over the "
-             "batch. The composed rounding-loss lower bound, meek-prf, qpq and equal rankings: bounded stand-in.",
+             "== ballots exactly (strict rankings). Batch exclusions (sure losers, 10059(k), write-ins) are covered through the sum of the piles "
+             "over the batch. Loss accounting: at every recorded step either nothing was lost since the previous one (no surplus transfer in "
+             "between; always under exact arithmetic) or the surplus transfer lost less than one unit per truncation and ballot paper. "
+             "meek-prf, qpq and equal rankings: bounded stand-in.",
         design_ref='DESIGN 6/C02, 11.L',
         note=COMMON_NOTE + "Model assumptions of the ledger (DESIGN 11.L): G[c] is the sum of the values of the ballots standing with c "
              "(closing fact of the partial sums; empty-sum and zero-sum lemmas), sum of multipliers == nBallots (C15 post-parse "
-             "invariant), candidate ids distinct. The lower bound (value lost only through the prescribed rounding) is proved per "
-             "ballot (site obligation) and composed by the bounded monitor only. Sum over a batch: uninterpreted sum with its update law; all-zero "
+             "invariant), candidate ids distinct. The per-transfer loss bounds are proved step by step; their closed-form sum over a whole "
+             "count is not formed. Sum over a batch: uninterpreted sum with its update law; all-zero "
              "and pointwise-equal lemmas used assert-then-assume. meek-prf, qpq, equal rankings: bounded monitor only (labelled bounded; never counted as proved). meek-prf's "
              "post-exclusion snapshots are outside the monitor (DESIGN 6.0 item 3).",
         technique='contract-based deductive verification of the real count() bodies with a ghost vote ledger (loop invariants of the '
